@@ -115,7 +115,7 @@ func (g *gate) step(root bool) {
 	g.seen[id] = true
 	if g.released {
 		g.after[id]++
-		if len(g.order) < 400 {
+		if len(g.order) < 60 {
 			g.order = append(g.order, event{"e": "Op", "g": id})
 			g.mu.Unlock()
 			return
@@ -156,7 +156,7 @@ func (g *gate) tick(v int) {
 	g.mu.Lock()
 	if id != g.bypass {
 		g.ticks[id]++
-		if len(g.order) < 400 {
+		if len(g.order) < 60 {
 			g.order = append(g.order, event{"e": "Tick", "g": id})
 		}
 	}
@@ -346,7 +346,7 @@ func runJob(j job) (res result) {
 	extra := 0
 	polls := 300
 	g.mu.Lock()
-	if len(g.order) >= 400 {
+	if len(g.order) >= 60 {
 		polls = 3 // goroutines that never stop are held in the hook: no point in waiting
 	}
 	g.mu.Unlock()
@@ -527,9 +527,13 @@ func run(c *fw.Ctx) error {
 		anys[i] = jobs[i]
 	}
 	results := c.RunChildren("c09", anys, 12, 15*time.Second, nil)
-	// assemble the concatenated trace
-	var trace bytes.Buffer
+	// assemble the concatenated traces: groups of 300 runs, validated by parallel TLC runs
 	byRun := map[string]result{}
+	type group struct {
+		buf   bytes.Buffer
+		lines int
+	}
+	var groups []*group
 	for i, r := range results {
 		var res result
 		if r.Out == nil || json.Unmarshal(r.Out, &res) != nil {
@@ -539,34 +543,63 @@ func run(c *fw.Ctx) error {
 			return fmt.Errorf("run %s: %s", jobs[i].id(), res.Err)
 		}
 		byRun[jobs[i].id()] = res
+		if i%300 == 0 {
+			groups = append(groups, &group{})
+		}
+		g := groups[len(groups)-1]
 		for _, e := range res.Events {
 			b, _ := json.Marshal(e)
-			trace.Write(b)
-			trace.WriteByte('\n')
+			g.buf.Write(b)
+			g.buf.WriteByte('\n')
+			g.lines++
 		}
 		c.Count(jobs[i].id(), res.Reached)
 		if i%97 == 0 {
 			c.Sample(map[string]any{"run": jobs[i].id(), "events": res.Events, "ops_before_cancel": res.OpsBefore, "goroutines": res.Goroutines})
 		}
 	}
-	nlines := bytes.Count(trace.Bytes(), []byte("\n"))
-	tres, err := c.TLC(fw.TLCOpts{Dir: "spec/sess", Module: "Cancel", Cfg: "Cancel.trace.cfg", Workers: 1,
-		Files: map[string][]byte{"trace.ndjson": trace.Bytes()}, Timeout: 5 * time.Minute})
-	if err != nil {
-		return err
-	}
-	if len(tres.Beh) != 1 {
-		return fmt.Errorf("trace not accepted by Cancel.tla: consumed less than %d lines (ill-formed trace)\n%s", nlines, tail(tres.Output))
-	}
-	var verdict struct {
+	type verdictT struct {
 		Consumed int        `json:"consumed"`
 		Bad      [][]string `json:"bad"`
 	}
-	if err := json.Unmarshal(tres.Beh[0], &verdict); err != nil {
-		return err
+	verdicts := make([]verdictT, len(groups))
+	errs := make([]error, len(groups))
+	var wg sync.WaitGroup
+	sem := make(chan struct{}, 6)
+	nlines := 0
+	for gi, g := range groups {
+		nlines += g.lines
+		wg.Add(1)
+		sem <- struct{}{}
+		go func(gi int, g *group) {
+			defer wg.Done()
+			defer func() { <-sem }()
+			tres, err := c.TLC(fw.TLCOpts{Dir: "spec/sess", Module: "Cancel", Cfg: "Cancel.trace.cfg", Workers: 1, HeapMB: 3000,
+				Files: map[string][]byte{"trace.ndjson": g.buf.Bytes()}, Timeout: 15 * time.Minute})
+			if err != nil {
+				errs[gi] = err
+				return
+			}
+			if len(tres.Beh) != 1 {
+				errs[gi] = fmt.Errorf("trace not accepted by Cancel.tla: consumed less than %d lines (ill-formed trace)\n%s", g.lines, tail(tres.Output))
+				return
+			}
+			if err := json.Unmarshal(tres.Beh[0], &verdicts[gi]); err != nil {
+				errs[gi] = err
+				return
+			}
+			if verdicts[gi].Consumed != g.lines {
+				errs[gi] = fmt.Errorf("trace validation consumed %d of %d lines", verdicts[gi].Consumed, g.lines)
+			}
+		}(gi, g)
 	}
-	if verdict.Consumed != nlines {
-		return fmt.Errorf("trace validation consumed %d of %d lines", verdict.Consumed, nlines)
+	wg.Wait()
+	var verdict verdictT
+	for gi := range groups {
+		if errs[gi] != nil {
+			return errs[gi]
+		}
+		verdict.Bad = append(verdict.Bad, verdicts[gi].Bad...)
 	}
 	c.TracesVsImpl = int64(len(results))
 	c.Extra["trace_events"] = nlines
